@@ -7,6 +7,9 @@
 //   case <id> <prim> <params...>
 //   v <in>... > <out>...            combinational vector
 //   s <in>... > <out>...            one clock cycle of a sequential primitive (inputs applied, outputs sampled, clock advanced)
+//                                   counters: s <inc> <dec> <load> <reset> <loadValue> <end> > <value> <isLast> <isFirst> <becomesFirst>
+//   counter cases carry the API usage pattern: <mask> = methods ever called on the instance (1 inc, 2 dec, 4 reset, 8 load; 0 = none =
+//   free-running), <resetLast> = reset() is placed after load(v) in the program
 //   err <design|internal|other>     the generator threw while building the circuit
 //   end
 #include <gatery/pch.h>
@@ -115,10 +118,11 @@ static void runComb(vh::Rng &rng, const std::function<void(Ctx &)> &build,
 }
 
 // ---------------------------------------------------------------- sequential: counters
-struct SeqIn { bool inc, dec, ld; std::string lv, end; };
-
+// `mask`: which of inc() (1) / dec() (2) / reset() (4) / load(v) (8) are ever called on the instance — each under its own input pin.
+// Methods outside the mask are never called at all (this matters: inc()/dec() clear the auto-increment default when they are *called*,
+// whatever their condition), their pins are held at 0.
 static void runCounter(vh::Rng &rng, size_t cycles, uint64_t loadLim, size_t endW,
-					   const std::function<std::unique_ptr<scl::Counter>(UInt &endSig)> &mk, bool useOps, bool upDown, size_t udW, size_t udReset,
+					   const std::function<std::unique_ptr<scl::Counter>(UInt &endSig)> &mk, unsigned mask, bool resetLast, bool upDown, size_t udW, size_t udReset,
 					   const std::string &endVal) {
 	try {
 		DesignScope design;
@@ -127,11 +131,13 @@ static void runCounter(vh::Rng &rng, size_t cycles, uint64_t loadLim, size_t end
 		auto pinc = pinIn().setName("inc"); Bit inc = pinc;
 		auto pdec = pinIn().setName("dec"); Bit dec = pdec;
 		auto pld = pinIn().setName("ld"); Bit ld = pld;
+		auto prs = pinIn().setName("rs"); Bit rs = prs;
 		hlim::Node_Pin *plv = nullptr, *pend = nullptr;
 		std::vector<hlim::Node_Pin *> outs;
 		std::unique_ptr<scl::Counter> ctr;
 		size_t valueW = 0;
 		if (upDown) {
+			mask = 1 | 2 | 8;
 			UInt value = scl::counterUpDown(inc, dec, ld, BitWidth(udW), udReset);
 			valueW = value.width().bits();
 			outs.push_back(pinOut(value).setName("value").node());
@@ -140,11 +146,16 @@ static void runCounter(vh::Rng &rng, size_t cycles, uint64_t loadLim, size_t end
 			if (endW) { auto pe = pinIn(BitWidth(endW)).setName("end"); pend = pe.node(); endSig = pe; }
 			ctr = mk(endSig);
 			valueW = ctr->value().width().bits();
-			if (useOps) {
-				auto pl = pinIn(BitWidth(valueW)).setName("lv"); plv = pl.node(); UInt lv = pl;
-				IF(inc) ctr->inc();
-				IF(dec) ctr->dec();
-				IF(ld) ctr->load(lv);
+			if (mask & 1) { IF(inc) ctr->inc(); }
+			if (mask & 2) { IF(dec) ctr->dec(); }
+			UInt lv;
+			if (mask & 8) { auto pl = pinIn(BitWidth(valueW)).setName("lv"); plv = pl.node(); lv = pl; }
+			if (resetLast) {
+				if (mask & 8) { IF(ld) ctr->load(lv); }
+				if (mask & 4) { IF(rs) ctr->reset(); }
+			} else {
+				if (mask & 4) { IF(rs) ctr->reset(); }
+				if (mask & 8) { IF(ld) ctr->load(lv); }
 			}
 			outs.push_back(pinOut(ctr->value()).setName("value").node());
 			outs.push_back(pinOut(ctr->isLast()).setName("last").node());
@@ -155,7 +166,7 @@ static void runCounter(vh::Rng &rng, size_t cycles, uint64_t loadLim, size_t end
 		vh::Sim s(design.getCircuit());
 		hlim::ClockRational T(1, 100'000'000);
 		// leave the reset phase: inputs idle during the first cycle
-		s.set(pinc.node(), "0"); s.set(pdec.node(), "0"); s.set(pld.node(), "0");
+		s.set(pinc.node(), "0"); s.set(pdec.node(), "0"); s.set(pld.node(), "0"); s.set(prs.node(), "0");
 		if (plv && valueW) s.set(plv, std::string(valueW, '0'));
 		if (pend) s.set(pend, endVal);
 		s.eval();
@@ -163,27 +174,32 @@ static void runCounter(vh::Rng &rng, size_t cycles, uint64_t loadLim, size_t end
 		s.sim.advance(T);
 		unsigned mode = 0, left = 0;
 		for (size_t t = 0; t < cycles; t++) {
-			if (left == 0) { mode = (unsigned) rng.below(6); left = 1 + (unsigned) rng.below(mode < 2 ? (1u << std::min<size_t>(valueW, 5)) + 3 : 6); }
+			if (left == 0) { mode = (unsigned) rng.below(8); left = 1 + (unsigned) rng.below(mode < 2 ? (1u << std::min<size_t>(valueW, 5)) + 3 : 6); }
 			left--;
-			bool i = false, d = false, l = false;
+			bool i = false, d = false, l = false, r = false;
 			switch (mode) {
 				case 0: i = true; break;                                  // run of increments (hits the wrap)
 				case 1: d = true; break;                                  // run of decrements
 				case 2: i = rng.chance(1, 2); d = rng.chance(1, 2); break; // mixed, incl. both
 				case 3: i = d = true; break;                              // both
 				case 4: l = rng.chance(1, 3); i = rng.chance(1, 2); d = rng.chance(1, 3); break;
-				default: break;                                           // idle
+				case 5: r = rng.chance(1, 3); l = rng.chance(1, 4); i = rng.chance(1, 2); d = rng.chance(1, 2); break; // several calls in one cycle
+				case 6: i = d = l = r = false; break;                     // idle (a counter that is never asked to move must hold / free-run)
+				default: i = rng.chance(1, 4); d = rng.chance(1, 4); l = rng.chance(1, 8); r = rng.chance(1, 8); break;
 			}
-			if (!useOps && !upDown) i = d = l = false;
+			if (!(mask & 1)) i = false;
+			if (!(mask & 2)) d = false;
+			if (!(mask & 8)) l = false;
+			if (!(mask & 4) || upDown) r = false;
 			std::string lv = "";
 			if (plv && valueW) {
 				// load values: mostly legal (<= end-1 is not enforced by the hardware; the driver's spec only needs a value)
 				lv = (loadLim && !rng.chance(1, 10)) ? binOf(rng.below(loadLim), valueW) : genBits(rng, valueW);
 			}
-			s.set(pinc.node(), i ? "1" : "0"); s.set(pdec.node(), d ? "1" : "0"); s.set(pld.node(), l ? "1" : "0");
+			s.set(pinc.node(), i ? "1" : "0"); s.set(pdec.node(), d ? "1" : "0"); s.set(pld.node(), l ? "1" : "0"); s.set(prs.node(), r ? "1" : "0");
 			if (plv && valueW) s.set(plv, lv);
 			s.eval();
-			o << "s " << i << ' ' << d << ' ' << l << ' ' << show(lv) << ' ' << show(endVal) << " >";
+			o << "s " << i << ' ' << d << ' ' << l << ' ' << r << ' ' << show(lv) << ' ' << show(endVal) << " >";
 			for (auto *p : outs) o << ' ' << s.getPin(p);
 			o << '\n';
 			s.sim.advance(T);
@@ -206,7 +222,7 @@ static size_t genWidth(vh::Rng &rng, size_t round, size_t lo, size_t hi) {
 static const char *PRIMS[] = {
 	"bitcount", "decoder", "encoder", "encdec", "pe", "petree1", "petree2", "petree3", "clz", "therm", "thermw", "thermback", "thermrt",
 	"grayenc", "graydec", "grayrt", "minu", "maxu", "mins", "maxs", "bpt", "divu", "divs", "csa", "csadd", "addc",
-	"ctr_end", "ctr_w", "ctr_uend", "ctr_auto", "updown", "crc", "crcwk", "crcgen", "petreereg", "divpipe", "bad",
+	"ctr_end", "ctr_w", "ctr_uend", "ctr_api_e", "ctr_api_p", "ctr_api_w", "ctr_api_u", "updown", "adder", "crc", "crcwk", "crcgen", "petreereg", "divpipe", "bad",
 };
 static const size_t NPRIMS = sizeof(PRIMS) / sizeof(PRIMS[0]);
 
@@ -227,6 +243,16 @@ int main(int argc, char **argv) {
 		size_t round = rounds[pi]++;
 		size_t bpsBase = 0;
 		if (prim.size() == 7 && prim.rfind("petree", 0) == 0) { bpsBase = prim[6] - '0'; prim = "petree"; }
+		// API usage pattern of a Counter instance: the ctr_api_* slots sweep all 16 subsets of {inc, dec, reset, load} systematically
+		// (round % 16) for each constructor / kind of limit; the ctr_end/ctr_w/ctr_uend slots keep inc+dec+load and a random rest.
+		unsigned ctrMask = 1 | 2 | 8 | (rng.chance(1, 2) ? 4 : 0);
+		bool ctrApi = false; char apiKind = 0;
+		if (prim.rfind("ctr_api_", 0) == 0) {
+			ctrApi = true; apiKind = prim[8];
+			ctrMask = (unsigned) (round % 16);
+			prim = apiKind == 'w' ? "ctr_w" : apiKind == 'u' ? "ctr_uend" : "ctr_end";
+		}
+		bool resetLast = rng.chance(1, 2);
 		size_t small = std::min<size_t>(maxw, 10);  // primitives whose output has 2^w bits
 		o << "case " << id << ' ' << prim;
 		if (prim == "bitcount") {
@@ -372,7 +398,7 @@ int main(int argc, char **argv) {
 			o << ' ' << w << ' ' << k << '\n';
 			runComb(rng, [&](Ctx &c) {
 				scl::CarrySafeAdder adder;
-				for (size_t i = 0; i < k; i++) adder += c.in(w);
+				for (size_t i = 0; i < k; i++) { if (i % 3 == 2) adder = adder + c.in(w); else adder += c.in(w); }   // += and the copying operator+
 				c.out(adder.intermediateSum());
 				if (k >= 2) c.out(adder.intermediateCarry());
 				c.out(adder.sum());
@@ -380,33 +406,45 @@ int main(int argc, char **argv) {
 		} else if (prim == "addc") {
 			size_t w = genWidth(rng, round, 1, maxw); o << ' ' << w << '\n';
 			runComb(rng, [&](Ctx &c) { UInt a = c.in(w), b = c.in(w); Bit ci = c.inBit(); auto [s, co] = scl::add(a, b, ci); c.out(s); c.out(co); });
-		} else if (prim == "ctr_end" || prim == "ctr_auto") {
+		} else if (prim == "ctr_end") {
 			size_t lim = std::min<size_t>(maxw, 24);
 			size_t end_;
-			if (round < 40) end_ = round + 1; else { size_t p = 1ull << rng.below(lim); end_ = rng.chance(1, 2) ? std::max<size_t>(1, p + rng.below(3) - 1) : 1 + rng.below(p + 1); }
-			size_t reset = rng.chance(1, 2) ? 0 : rng.below(end_);
-			bool ops = prim == "ctr_end";
-			o << ' ' << end_ << ' ' << reset << '\n';
-			runCounter(rng, std::min<size_t>(4 * end_ + 40, 300), end_, 0, [&](UInt &) { return std::make_unique<scl::Counter>(end_, reset); }, ops, false, 0, 0, "");
+			if (ctrApi && apiKind == 'p') end_ = 1ull << (1 + rng.below(std::min<size_t>(lim, 6)));                       // a power of two: no overflow logic
+			else if (ctrApi) { do end_ = 3 + rng.below(60); while ((end_ & (end_ - 1)) == 0); }                            // not a power of two
+			else if (round < 40) end_ = round + 1;
+			else { size_t p = 1ull << rng.below(lim); end_ = rng.chance(1, 2) ? std::max<size_t>(1, p + rng.below(3) - 1) : 1 + rng.below(p + 1); }
+			size_t reset = rng.chance(1, 3) ? 0 : rng.below(end_);
+			o << ' ' << end_ << ' ' << reset << ' ' << ctrMask << ' ' << resetLast << '\n';
+			runCounter(rng, std::min<size_t>(4 * end_ + 40, 300), end_, 0, [&](UInt &) { return std::make_unique<scl::Counter>(end_, reset); }, ctrMask, resetLast, false, 0, 0, "");
 		} else if (prim == "ctr_w") {
-			size_t w = genWidth(rng, round, 0, std::min<size_t>(maxw, 60));
-			size_t reset = (rng.chance(1, 2) || w == 0) ? 0 : rng.below(1ull << std::min<size_t>(w, 62));
-			o << ' ' << w << ' ' << reset << '\n';
-			runCounter(rng, std::min<size_t>(4 * (1ull << std::min<size_t>(w, 6)) + 40, 300), 0, 0, [&](UInt &) { return std::make_unique<scl::Counter>(BitWidth(w), reset); }, true, false, 0, 0, "");
+			size_t w = ctrApi ? 1 + rng.below(std::min<size_t>(maxw, 12)) : genWidth(rng, round, 0, std::min<size_t>(maxw, 60));
+			size_t reset = (rng.chance(1, 3) || w == 0) ? 0 : rng.below(1ull << std::min<size_t>(w, 62));
+			o << ' ' << w << ' ' << reset << ' ' << ctrMask << ' ' << resetLast << '\n';
+			runCounter(rng, std::min<size_t>(4 * (1ull << std::min<size_t>(w, 6)) + 40, 300), w < 63 ? (1ull << w) : 0, 0, [&](UInt &) { return std::make_unique<scl::Counter>(BitWidth(w), reset); }, ctrMask, resetLast, false, 0, 0, "");
 		} else if (prim == "ctr_uend") {
-			size_t w = genWidth(rng, round, 1, std::min<size_t>(maxw, 60));
+			size_t w = ctrApi ? 1 + rng.below(std::min<size_t>(maxw, 12)) : genWidth(rng, round, 1, std::min<size_t>(maxw, 60));
 			// end as a run-time signal: small values so that the wrap is reached; 0 means 2^w
 			uint64_t maxEnd = (w >= 6) ? 64 : (1ull << w) - 1;
 			uint64_t endv = rng.chance(1, 8) ? 0 : 1 + rng.below(maxEnd);
 			uint64_t lim = endv ? endv : (1ull << std::min<size_t>(w, 6));
-			size_t reset = rng.chance(1, 2) ? 0 : rng.below(lim);
-			o << ' ' << w << ' ' << reset << '\n';
-			runCounter(rng, std::min<size_t>(4 * lim + 40, 300), endv, w, [&](UInt &e) { return std::make_unique<scl::Counter>(e, reset); }, true, false, 0, 0, binOf(endv, w));
+			size_t reset = rng.chance(1, 3) ? 0 : rng.below(lim);
+			o << ' ' << w << ' ' << reset << ' ' << ctrMask << ' ' << resetLast << '\n';
+			runCounter(rng, std::min<size_t>(4 * lim + 40, 300), endv, w, [&](UInt &e) { return std::make_unique<scl::Counter>(e, reset); }, ctrMask, resetLast, false, 0, 0, binOf(endv, w));
 		} else if (prim == "updown") {
 			size_t w = genWidth(rng, round, 1, std::min<size_t>(maxw, 60));
 			size_t reset = rng.chance(1, 2) ? 0 : rng.below(1ull << std::min<size_t>(w, 62));
 			o << ' ' << w << ' ' << reset << '\n';
-			runCounter(rng, std::min<size_t>(4 * (1ull << std::min<size_t>(w, 6)) + 40, 300), 0, 0, nullptr, true, true, w, reset, "");
+			runCounter(rng, std::min<size_t>(4 * (1ull << std::min<size_t>(w, 6)) + 40, 300), 0, 0, nullptr, 0, false, true, w, reset, "");
+		} else if (prim == "adder") {
+			// Adder<UInt>: the first add() assigns, later ones accumulate (m_count) — 1..6 operands
+			size_t w = genWidth(rng, round, 1, maxw); size_t k = 1 + rng.below(6);
+			if (w * k > 12 && w * k <= 16) k = std::max<size_t>(1, 12 / w);
+			o << ' ' << w << ' ' << k << '\n';
+			runComb(rng, [&](Ctx &c) {
+				scl::Adder<UInt> adder;
+				for (size_t i = 0; i < k; i++) { if (i % 2) adder += c.in(w); else adder.add(c.in(w)); }
+				c.out(adder.sum());
+			});
 		} else if (prim == "crc") {
 			size_t rw = genWidth(rng, round / 3, 1, maxw);
 			size_t dw = (round % 3 == 0) ? rw : genWidth(rng, round + 7 * (round / 3), 0, maxw);
@@ -428,7 +466,7 @@ int main(int argc, char **argv) {
 				c.out(st.checksum());
 			}, fixed, false);
 		} else if (prim == "crcgen") {
-			size_t w = genWidth(rng, round, 1, maxw); size_t dw = rng.chance(1, 2) ? 8 : genWidth(rng, round * 5 + 1, 1, maxw); size_t k = 1 + rng.below(3);
+			size_t w = genWidth(rng, round, 1, maxw); size_t dw = rng.chance(1, 2) ? 8 : genWidth(rng, round * 5 + 1, 1, maxw); size_t k = rng.below(4);   // 0 = checksum() right after init()
 			o << ' ' << w << ' ' << dw << ' ' << k << '\n';
 			runComb(rng, [&](Ctx &c) {
 				scl::CrcState st;
